@@ -35,9 +35,21 @@ def match_known(known, prop, rec):
     return None
 
 
-def finish(eng, prop, args, seed, results, wall):
+def finish(eng, prop, args, seed, results, wall, enum_results=()):
     from .front import DROPPED
     known = load_known()
+    # a bounded enumerator that found a failing input on the real code decides the undecided obligations of
+    # the functions in its scope (and is a violation in its own right if everything had been discharged)
+    found = [e for e in enum_results if (e["result"] or {}).get("failed_on_real_code")]
+    enum_errors = [f"enumerator {e['name']}: {e['result'].get('error')}" for e in enum_results
+                   if (e["result"] or {}).get("error")]
+    for r in results:
+        for ob in r.get("obligations", []):
+            if ob["expect"] == "unsat" and ob["status"] != "unsat" and not (ob.get("replay") or {}).get("failed_on_real_code"):
+                for e in found:
+                    if ob["fn"] in e["scope"]:
+                        ob["replay"] = dict(e["result"], enumerator=e["name"])
+                        break
     obligations = discharged = 0
     by_kind, by_backend = {}, {}
     solver_s = 0.0
@@ -90,6 +102,14 @@ def finish(eng, prop, args, seed, results, wall):
             if "smt_head" in ob and len(samples) < 4:
                 samples.append({"obligation": ob["oid"], "kind": ob["kind"], "status": ob["status"],
                                 "spec": ob["note"], "smtlib_head": ob["smt_head"]})
+    attached = {(o.get("replay") or {}).get("enumerator") for o in violations}
+    for e in found:
+        if e["name"] not in attached:
+            # every obligation in scope was discharged, yet the real code fails the property's oracle on a small
+            # input: reported as a violation of the property (it also means a contract is too weak: DESIGN 2.8)
+            violations.append({"oid": f"enumerator:{e['name']}:oracle", "kind": "bounded-cross-check", "note": "",
+                               "fn": e["name"], "backend": "cpython", "status": "failing-input",
+                               "replay": dict(e["result"], enumerator=e["name"])})
     # ---- triage of failing obligations
     new_violations, known_hits = [], []
     seen_ids = set()
@@ -103,6 +123,7 @@ def finish(eng, prop, args, seed, results, wall):
             errors.append(f"{ob['oid']}: replay contradicts the encoding: {rp.get('detail')}")
             continue
         new_violations.append(ob)
+    errors.extend(enum_errors)
     rc = 0
     printed = set()
     for k, ob in known_hits:
@@ -160,7 +181,11 @@ def finish(eng, prop, args, seed, results, wall):
             "covers": covers, "covers_satisfiable": covers_ok, "covers_inconclusive": inconclusive,
             "undecided": undecided[:50], "failing": [stable_id(o["oid"]) for o in violations],
             "known_findings_hit": sorted({k["id"] for k, _ in known_hits}),
-            "bounded_stand_ins": bounded,
+            "bounded_stand_ins": bounded + [
+                {"name": e["name"], "triggered_by": e["triggered_by"], "wall_s": e["wall"],
+                 "found_failing_input": bool((e["result"] or {}).get("failed_on_real_code")),
+                 "candidates_tried": (e["result"] or {}).get("candidates_tried"), "bound": (e["result"] or {}).get("bound"),
+                 "role": "refuter / CPython cross-check only; never counted as proof"} for e in enum_results],
             "dropped_by_front_end": DROPPED,
             "samples": samples,
             "explanation": ("every obligation generated from the current source was discharged"
